@@ -31,7 +31,12 @@ FLAG_OF = {"expand_macros": {"expand_macro"}, "fill_in_map": {"expand_let_map"},
 
 def run(ctx, rep):
     ix, T = ctx.ix, ctx.typer
-    from .common import check_fast_paths
+    from .common import check_symbolic_qubits_left_alone
+    check_symbolic_qubits_left_alone(ctx, rep, "C10.10")
+    from .common import check_macro_table_lookup
+    check_macro_table_lookup(ctx, rep, "C10.9")
+    from .common import check_fast_paths, check_coercion
+    check_coercion(ctx, rep, "C10.8", {"jaqalpaq.core.algorithm.expand_macros", "jaqalpaq.core.algorithm.fill_in_map", "jaqalpaq.core.algorithm.expand_subcircuits", "jaqalpaq.core.algorithm.unit_timing"})
     _fp_mods = ["jaqalpaq.core.algorithm.fill_in_map", "jaqalpaq.core.algorithm.expand_macros", "jaqalpaq.core.algorithm.expand_subcircuits"]
     check_fast_paths(ctx, rep, "C10.7", [f for f in ix.functions.values() if f.module in _fp_mods and (f.cls is None or T.is_visitor(f.cls))], {"jaqalpaq.core.algorithm.expand_subcircuits.expand_subcircuits": {"body", "macros"}})
     from .common import check_falsy_zero
